@@ -66,7 +66,7 @@ Expect(step, pool) ==
 Class(op) ==
     CASE op \in {"Unweld", "RemoveUnreferenced", "Split", "Filter", "Crop"} -> "corners"
       [] op \in {"Weld", "RemoveNullFaces"} -> "cornersnomats"
-      [] op \in {"Export", "Scan"} -> "none"
+      [] op \in {"Export", "Scan", "Misc"} -> "none"      \* Misc: judged on frame and well-formedness only
       [] op \in AttrOps -> "attr"
       [] OTHER -> "exact"
 
@@ -94,6 +94,9 @@ Admissible(step, pool) ==
             [] op = "CopyAttr" -> WellFormed(CopyAttr(a, S(step, pool, 2), g.ar, g.id))
             [] op = "Split" -> SplitPre(a)
             [] op = "Filter" -> a.topo = "point"
+            \* ClearAttributeData / Set*Data replace whole attribute maps: raw setters whose result is only as
+            \* well formed as what the caller hands in (like SetAttr with a wrong length) - frame check only
+            [] op = "Misc" -> g.kind \notin {8, 9}
             [] OTHER -> TRUE
 
 \* Can the reference value be computed exactly in the integer model?
